@@ -188,6 +188,8 @@ def main():
         out["steps"] += len(steps)
         warm = res["warm"]
         out["clock_warm"] += warm["clock"]
+        out["cold_forks"] += res.get("cold_forks", 0)
+        out["clock_cold"] += res.get("cold_clock", 0)
         for fn, n in warm.get("entered", {}).items():
             _add(out["functions_entered"], fn, n)
         any_fired = False
@@ -216,9 +218,7 @@ def main():
             out["probes_faulted" if faulted else "probes_faultfree"] += 1
             if p.get("cached"):
                 out["cold_cached"] += 1
-            elif "cold_clock" in p:
-                out["cold_forks"] += 1
-                out["clock_cold"] += p["cold_clock"]
+
             v = p["verdict"]
             if v == "trivial":
                 out["probes"] -= 1
